@@ -246,6 +246,12 @@ func (p *produced) prepare() {
 
 var prodMu sync.Mutex
 
+func wipe(b []byte) {
+	for i := range b {
+		b[i] = 0
+	}
+}
+
 func silence() {
 	logrus.SetOutput(io.Discard)
 	logrus.SetFormatter(&logrus.TextFormatter{DisableColors: true})
@@ -256,10 +262,14 @@ func produce(s script) (p *produced) {
 	prodMu.Lock()
 	defer prodMu.Unlock()
 	p = &produced{s: s}
-	hooks, err := logging.NewHooks(append([]byte(nil), auditKey...), s.Format)
+	// the services wipe the key buffer they handed over right after the call (utils.ZeroizeSymmetricKey):
+	// so does the harness, here and after every ResetChain
+	k0 := append([]byte(nil), auditKey...)
+	hooks, err := logging.NewHooks(k0, s.Format)
 	if err != nil {
 		ev.Fatalf("NewHooks: %v", err)
 	}
+	wipe(k0)
 	f := logging.CreateCryptoFormatter(s.Format)
 	f.SetServiceName("c20-service")
 	f.SetHooks(hooks)
@@ -287,7 +297,9 @@ func produce(s script) (p *produced) {
 		for i := 0; i <= len(s.Entries); i++ {
 			switch s.Restarts[i] {
 			case "reset":
-				h.ResetChain(append([]byte(nil), auditKey...))
+				kr := append([]byte(nil), auditKey...)
+				h.ResetChain(kr)
+				wipe(kr)
 				marks = append(marks, mark{buf.Len(), "service", true})
 			case "finalize":
 				h.FinalizeChain()
